@@ -188,7 +188,11 @@ func c10RunSession(pprofBin, caseDir, name string, lines []string, _ []string, w
 	cmd := exec.Command(pprofBin, "-symbolize=none", filepath.Join(caseDir, "prof.pb.gz"))
 	cmd.Dir = dir
 	// no graphviz, no viewers, no user configuration, temp files inside the session directory
-	cmd.Env = []string{"PATH=" + filepath.Join(caseDir, "nopath"), "HOME=" + dir, "XDG_CONFIG_HOME=" + filepath.Join(dir, "tmp"),
+	path := filepath.Join(caseDir, "nopath")
+	if _, err := os.Stat(filepath.Join(caseDir, "use-system-tools")); err == nil {
+		path = "/usr/bin:/bin" // real-binary cases: objdump, nm, addr2line / llvm-symbolizer (graphviz is not installed)
+	}
+	cmd.Env = []string{"PATH=" + path, "HOME=" + dir, "XDG_CONFIG_HOME=" + filepath.Join(dir, "tmp"),
 		"TMPDIR=" + filepath.Join(dir, "tmp"), "PPROF_TMPDIR=" + filepath.Join(dir, "tmp"), "TZ=UTC", "TERM=dumb"}
 	in, err := cmd.StdinPipe()
 	if err != nil {
